@@ -127,7 +127,7 @@ Proof. exact (dispatch_spec kw id sym). Qed.
 Print Assumptions C23_dispatch_spec.
 
 (* -begin / -end comments of a file, any number: every resulting block suppression is a
-   (begin, end on a later line, same symbol name) pair of the file with the lines of the two
+   (begin, end on a later line, same id, same symbol name) pair of the file with the lines of the two
    comments, and every entry is accounted for (half of a block, or reported invalid) *)
 Theorem C23_pair_blocks_sound es blocks bad :
   pair_blocks es = (blocks, bad) ->
@@ -135,18 +135,23 @@ Theorem C23_pair_blocks_sound es blocks bad :
 Proof. exact (pair_blocks_sound es blocks bad). Qed.
 Print Assumptions C23_pair_blocks_sound.
 
-Theorem C23_pair_single i1 i2 sy l1 l2 : (l1 < l2)%Z ->
-  pair_blocks [mkBE false i1 sy l1; mkBE true i2 sy l2] = ([mkBlk i2 sy l1 l2], 0).
-Proof. exact (pair_single i1 i2 sy l1 l2). Qed.
+Theorem C23_pair_single i sy l1 l2 : (l1 < l2)%Z ->
+  pair_blocks [mkBE false i sy l1; mkBE true i sy l2] = ([mkBlk i sy l1 l2], 0).
+Proof. exact (pair_single i sy l1 l2). Qed.
 Print Assumptions C23_pair_single.
 
-(* REFUTED: "a block is opened and closed for the same id". The ids are not compared:
-   -begin uninitvar ... -end nullPointer yields a block suppression for nullPointer, nothing invalid *)
-Theorem C23_pair_same_id_refuted :
-  pair_blocks [mkBE false S_UNINITVAR [] 3; mkBE true S_NULLPTR [] 5] = ([mkBlk S_NULLPTR [] 3 5], 0)
-  /\ S_UNINITVAR <> S_NULLPTR.
-Proof. exact pair_ids_not_compared. Qed.
-Print Assumptions C23_pair_same_id_refuted.
+(* a block is opened and closed for the same id (after fix ec62462; part of block_ok in
+   C23_pair_blocks_sound): an end naming another id closes nothing, both comments are invalid *)
+Theorem C23_pair_other_id i1 i2 sy l1 l2 : i1 <> i2 ->
+  pair_blocks [mkBE false i1 sy l1; mkBE true i2 sy l2] = ([], 2).
+Proof. exact (pair_other_id i1 i2 sy l1 l2). Qed.
+Print Assumptions C23_pair_other_id.
+
+(* the input that refuted it before the fix: -begin uninitvar ... -end nullPointer *)
+Theorem C23_pair_former_witness :
+  pair_blocks [mkBE false S_UNINITVAR [] 3; mkBE true S_NULLPTR [] 5] = ([], 2).
+Proof. exact former_pair_witness. Qed.
+Print Assumptions C23_pair_former_witness.
 
 (* where an inline suppression applies (addInlineSuppressions over the token sequence of a file):
    a comment that starts its line is attached to the line of the next code token ... *)
